@@ -420,7 +420,21 @@ func init() {
 		}}),
 		// P18: P14's cartridge with a byte-identical header (0100-014F) and another program: what the emulator keeps
 		// about one image must not be taken for another's because their headers agree
-		bankedGuest(0x01, 2, 8, []uint8{2, 3, 1, 7, 6}))
+		bankedGuest(0x01, 2, 8, []uint8{2, 3, 1, 7, 6}),
+		// P19 / P20: wave RAM as plain memory: channel 3's DAC off, sixteen bytes written from a running counter (starting
+		// at 11 / A7), read back into work RAM, again and again: what one instance keeps in FF30-FF3F is its own
+		waveGuest(0x11), waveGuest(0xa7))
+}
+
+func waveGuest(seed uint8) []byte {
+	return machine.Program(map[uint16][]byte{0x100: {0xc3, 0x50, 0x01}, 0x150: {
+		0x3e, 0x80, 0xe0, 0x26, 0xaf, 0xe0, 0x1a, 0x06, seed, // sound on, NR30 = 00, LD B,seed
+		0x21, 0x30, 0xff, 0x0e, 0x10, // loop: LD HL,FF30; LD C,10
+		0x78, 0x22, 0x04, 0x0d, 0x20, 0xfa, // LD A,B; LD (HL+),A; INC B; DEC C; JR NZ,-6
+		0x21, 0x30, 0xff, 0x11, 0x00, 0xc0, 0x0e, 0x10, // LD HL,FF30; LD DE,C000; LD C,10
+		0x2a, 0x12, 0x13, 0x0d, 0x20, 0xfa, // LD A,(HL+); LD (DE),A; INC DE; DEC C; JR NZ,-6
+		0x18, 0xe5, // JR loop
+	}})
 }
 
 type c25Case struct {
@@ -708,7 +722,7 @@ func init() {
 			units = []int{1, 7, 61}
 		}
 		gen := func(yield func(c25Case) bool) {
-			progSets2 := [][]int{{0, 1}, {1, 2}, {2, 0}, {2, 2}, {3, 4}, {4, 3}, {4, 4}, {5, 5}, {3, 6}, {6, 4}, {7, 8}, {8, 7}, {7, 7}, {9, 9}, {9, 2}, {13, 13}, {13, 6}, {3, 13}}
+			progSets2 := [][]int{{19, 20}, {0, 1}, {1, 2}, {2, 0}, {2, 2}, {3, 4}, {4, 3}, {4, 4}, {5, 5}, {3, 6}, {6, 4}, {7, 8}, {8, 7}, {7, 7}, {9, 9}, {9, 2}, {13, 13}, {13, 6}, {3, 13}}
 			progSets3 := [][]int{{0, 1, 2}, {2, 1, 0}, {3, 5, 4}, {7, 9, 8}}
 			for _, sh := range shapes {
 				sets := progSets2
@@ -761,7 +775,7 @@ func init() {
 				}
 			}
 			// the same at frame-sized steps (2 instances x 2 frames); P10 needs a frame to reach the LCD-on loop
-			for _, mc := range []struct{ ps, cfg []int }{{[]int{10, 0}, []int{0, 1}}, {[]int{10, 10}, []int{0, 3}}, {[]int{9, 10}, []int{2, 0}}, {[]int{10, 9}, nil}, {[]int{9, 11}, nil}, {[]int{11, 9}, nil}, {[]int{11, 10}, nil}, {[]int{12, 12}, nil}, {[]int{12, 1}, nil}, {[]int{0, 12}, nil}, {[]int{14, 15}, nil}, {[]int{15, 14}, nil}, {[]int{14, 18}, nil}, {[]int{18, 14}, nil}, {[]int{16, 17}, nil}, {[]int{17, 16}, nil}, {[]int{16, 16}, nil}} {
+			for _, mc := range []struct{ ps, cfg []int }{{[]int{10, 0}, []int{0, 1}}, {[]int{10, 10}, []int{0, 3}}, {[]int{9, 10}, []int{2, 0}}, {[]int{10, 9}, nil}, {[]int{9, 11}, nil}, {[]int{11, 9}, nil}, {[]int{11, 10}, nil}, {[]int{12, 12}, nil}, {[]int{12, 1}, nil}, {[]int{0, 12}, nil}, {[]int{14, 15}, nil}, {[]int{15, 14}, nil}, {[]int{14, 18}, nil}, {[]int{18, 14}, nil}, {[]int{19, 20}, nil}, {[]int{20, 19}, nil}, {[]int{16, 17}, nil}, {[]int{17, 16}, nil}, {[]int{16, 16}, nil}} {
 				for cr := 0; cr < 3; cr++ {
 					ok := true
 					interleavings(2, 2, func(s []int) bool {
@@ -794,6 +808,7 @@ func init() {
 		if n := c25AllOpcodesCovered(); n < 498 && c.R != nil {
 			c.R.HarnessError("the all-opcodes guest executes only %d of 498 opcodes", n)
 		}
+		c25GBPart(c) // first: the long enumeration below may use up the tier's time budget
 		// the CPU trace of instances built with DebugCPU goes to os.Stdout: capture it in a scratch file for the part
 		var capture *os.File
 		oldStdout := os.Stdout
@@ -803,10 +818,9 @@ func init() {
 		}
 		explore.Product(c.R, "interleavings", explore.PartOpt{Workers: 1, Guard: true, SameSig: true,
 			Bound:  fmt.Sprintf("all interleavings of shapes %v (instances x steps), units %v cycles + frame steps 2x3, 3x2; 3 creation orders", shapes, units),
-			Domain: "instances built with and without the debug options (CPU trace, debug LCD geometry) side by side; 19 guest programs (two MBC1 cartridges with byte-identical headers and different code; MBC1 cartridges of different ROM sizes selecting their higher banks; two MBC3 clock cartridges interleaving their latch-port writes; cartridge RAM on MBC3; a guest executing every defined opcode once per round; a second video program with other tile data and scroll; execution across echo RAM into object memory with the LCD on; ALU/CB/branches; stores/stack/CALL; timer interrupt + HALT; cartridge RAM writer on MBC1 with 4 banks; cartridge RAM read-before-write on MBC1 with 1 bank, on MBC2 and on MBC5; two sound programs that power-cycle the APU and run different channel-1 sweeps; video + OAM DMA + serial + joypad select)"},
+			Domain: "instances built with and without the debug options (CPU trace, debug LCD geometry) side by side; 21 guest programs (two that use wave RAM as plain memory with different contents; two MBC1 cartridges with byte-identical headers and different code; MBC1 cartridges of different ROM sizes selecting their higher banks; two MBC3 clock cartridges interleaving their latch-port writes; cartridge RAM on MBC3; a guest executing every defined opcode once per round; a second video program with other tile data and scroll; execution across echo RAM into object memory with the LCD on; ALU/CB/branches; stores/stack/CALL; timer interrupt + HALT; cartridge RAM writer on MBC1 with 4 banks; cartridge RAM read-before-write on MBC1 with 1 bank, on MBC2 and on MBC5; two sound programs that power-cycle the APU and run different channel-1 sweeps; video + OAM DMA + serial + joypad select)"},
 			gen, func() *c25Env { return &c25Env{solo: map[string][]uint64{}, out: capture, exe: c.SelfExe} }, c25Check)
 		os.Stdout = oldStdout
-		c25GBPart(c)
 		c25RacePass(c)
 	})
 }
